@@ -241,6 +241,9 @@ func main() {
 				}
 			}()
 			rdb, err := leveldb.Recover(img, &o)
+			if os.Getenv("VERIF_DEBUG") != "" {
+				fmt.Fprintf(os.Stderr, "recoverdb: after Recover (%s): %v err=%v\n", mode, img.Files(), err)
+			}
 			if err != nil {
 				tr.Emit(vt.Ev{"ev": "recoverdb", "ok": 0, "err": err.Error(), "manifest": mode, "tables_damaged": ntDamaged,
 					"store": [][2]int{}, "newest_ok": newestOK})
@@ -289,8 +292,17 @@ func errName(err error) string {
 
 func followUp(tr *vt.Tracer, db *leveldb.DB, img *vt.RecStor, w *wl.Workload, rng *rand.Rand) {
 	n := w.U.N()
-	for i := 0; i < 40; i++ {
-		switch r := rng.Intn(10); {
+	steps, noCompact := 40, false
+	if rng.Intn(2) == 0 {
+		// a short visit: a few writes that stay in the write buffer and the journal the recovered DB opened, then Close
+		steps, noCompact = 1+rng.Intn(4), true
+	}
+	for i := 0; i < steps; i++ {
+		r := rng.Intn(10)
+		if noCompact && r == 9 {
+			r = 0
+		}
+		switch {
 		case r < 5:
 			ops, vals := w.GenOps(1+rng.Intn(3), false)
 			lb := new(leveldb.Batch)
